@@ -65,7 +65,8 @@ class RemoteValueSetpointShift(RemoteValue[float]):
             )
         if self._internal_dpt_class == DPTValue1Count:
             try:
-                converted_value = int(value / self.setpoint_shift_step)
+                # round to the nearest step - int() would truncate 0.3 / 0.1 (2.9999999999999996) to 2
+                converted_value = round(value / self.setpoint_shift_step)
             except (TypeError, ValueError, OverflowError, ZeroDivisionError) as err:
                 raise ConversionError(
                     "Could not convert setpoint shift", value=value
